@@ -360,12 +360,14 @@ VerdictOf ==
     C05 |-> {"accept_not_smaller", "accept_other_site", "accept_grew", "result_larger", "failure_site_changed",
              "result_not_best", "try_not_smaller"},
     C06 |-> {"ff_not_found", "gen_before_failfiles", "failure_not_saved", "persist_mismatch", "replay_not_first",
-             "replay_differs", "save_wrong_buffer", "save_before_capture", "no_failfile_written", "failfile_name"},
+             "replay_differs", "save_wrong_buffer", "save_before_capture", "no_failfile_written", "failfile_name", "ff_order",
+             "report_failfile", "check_crashed"},
     C07 |-> {"report_seed", "seed_replay_differs", "seed_run_differs", "repro_seed"},
     C09 |-> {"gen_after_failure", "gen_beyond_budget", "vacuous_pass", "pass_count", "no_failnow", "stopped_early",
              "onlygen_despite_enough", "extra_invocations", "gen_before_failfiles", "pass_without_verdict",
              "failed_without_report", "onlygen_count", "ret_budget", "early_exit_without_deadline"},
     C11 |-> {"phantom_failure", "lost_failure", "reported_failure_never_happened", "flaky_report", "skip_misjudged",
              "label_carried_over", "failure_message", "dead_context_in_body"},
-    C17 |-> {"ff_ignored_silently", "ff_changed_verdict", "ff_changed_cases", "ff_after_failure", "ff_order"} ]
+    C17 |-> {"ff_ignored_silently", "ff_changed_verdict", "ff_changed_cases", "ff_after_failure", "ff_order", "unusable_file_used",
+             "check_crashed"} ]
 =============================================================================
